@@ -833,7 +833,7 @@ impl Scenario for ConverterScenario {
     }
     fn assumptions(&self) -> &'static [&'static str] {
         &[
-            "ratios in [2^-10, 64]; dyadic regime: multiples of 2^-10 (all accumulator arithmetic exact, strict equality)",
+            "ratios in [2^-10, 64]; dyadic regime: multiples of 2^-10 (all accumulator arithmetic exact: strict equality of pull counts, of floor outputs and of outputs at integer positions; a linear blend at a fractional position within 4 ulp / 1 LSB, as the property says 'up to float rounding')",
             "free regime: a position within n*2^-46 of an integer accepts both neighbouring pull counts (the accumulator is f64)",
             "after the mul_hz control stream ends the ratio would be 0 (outside ratio > 0): no further outputs are requested",
         ]
